@@ -102,13 +102,15 @@ def _assigns(fm: FuncModel, loop, name: str):
 
 def _nonempty_container(test: ast.AST) -> str | None:
     """X if the test implies len(X) > 0 (conjunct `len(X) > 0`, `len(X) != 0`, or truthiness of X)."""
-    for c in (test.values if isinstance(test, ast.BoolOp) and isinstance(test.op, ast.And) else [test]):
+    parts = test.values if isinstance(test, ast.BoolOp) and isinstance(test.op, ast.And) else [test]
+    for c in parts:      # an explicit length test first: a bare name next to it is a flag (`while ok and len(level) > 0`)
         if isinstance(c, ast.Compare) and len(c.ops) == 1 and isinstance(c.left, ast.Call) and callee_name(c.left) == "len" \
                 and isinstance(c.left.args[0], ast.Name) and isinstance(c.comparators[0], ast.Constant):
             v = c.comparators[0].value
             if (isinstance(c.ops[0], ast.Gt) and v == 0) or (isinstance(c.ops[0], ast.NotEq) and v == 0) or \
                     (isinstance(c.ops[0], ast.GtE) and v == 1):
                 return c.left.args[0].id
+    for c in parts:
         if isinstance(c, ast.Name):
             return c.id
     return None
